@@ -359,9 +359,29 @@ def crash_points(ops, thorough: bool):
                 yield n, m
 
 
+def table_codes() -> list[int]:
+    """the statement table of Checkpointer.save as the translator reads it (empty = not understood: the model's own)"""
+    from translate.gen import REPO as TREPO
+    from translate.pyexpr import Untranslatable, find_function, parse_file
+    from translate.recipes.c15 import CK, save_table
+
+    kinds = {".model": 0, ".modelTmp": 1, ".last": 2, ".lastTmp": 3}
+    codes = {".openW": 1, ".writePayload": 2, ".writeLabel": 3, ".closeF": 4, ".replace": 5}
+    try:
+        rows = save_table(find_function(parse_file(TREPO / CK), "Checkpointer.save"))
+    except Untranslatable:
+        return []
+    out = []
+    for r in rows:
+        parts = r.split()
+        out += [codes[parts[0]], kinds[parts[1]], kinds[parts[2]] if len(parts) > 2 else 0]
+    return out
+
+
 def prepare(ctx: Ctx):
     saves, payloads, how = trace_saves(ctx)
-    ctx.__dict__["c15"] = {"saves": saves, "payloads": payloads, "how": how, "verdicts": [], "histories": []}
+    ctx.__dict__["c15"] = {"saves": saves, "payloads": payloads, "how": how, "verdicts": [], "histories": [],
+                           "table": table_codes()}
     ctx.notes.append(f"file operations of Checkpointer.save recorded by {how}: {len(saves[0])} ops per save, payload writes "
                      f"{payload_sizes(saves[0])}")
 
@@ -392,7 +412,7 @@ def _crash_case(ctx, st, name, prev, new, pinned, n, m):
     prev_g = [v for (pops, ppay, pit, psid) in prev for v in (pit, psid, len(ppay))]
     inside = 0 < n < len(use) or (n == 0 and m is not None)
     return {"line": "crash " + " | ".join(ints(g) for g in ([int(pinned)], prev_g, [it, sid, len(payload)], sizes,
-                                                            [n, -1 if m is None else m])),
+                                                            [n, -1 if m is None else m], [] if pinned else st["table"])),
             "impl": impl, "nontrivial": inside,
             "bucket": f"crash/{'pinned' if pinned else 'current'}/{name}/" + ("cut" if m is not None else "boundary")}
 
@@ -406,7 +426,7 @@ def correspondence(ctx: Ctx):
     # (i) traced operations of the real save vs the model's operation list
     for i, it in enumerate([5, 12, 12]):
         ops = st["saves"][i]
-        yield {"line": "saveops " + ints([it, 0]) + " | " + ints(payload_sizes(ops)),
+        yield {"line": "saveops " + ints([it, 0]) + " | " + ints(payload_sizes(ops)) + " | " + ints(st["table"]),
                "impl": (lambda ops=ops: canon_ops(ops)), "nontrivial": True, "bucket": f"saveops/{st['how']}"}
     # (ii) every crash state, current order (traced) and pinned order (regression stream)
     for name, prev, new in _scenarios(st):
@@ -447,7 +467,7 @@ def correspondence(ctx: Ctx):
     # (iii) histories of real training processes
     for i in range(ctx.budget(36, 400)):
         c, stops = gen_history(rng, k=1 if i % 3 else rng.choice([2, 3]))
-        yield {"line": toy.proto("train", toy.toy_groups(c, [c["ck"], 0]) + [[v for s in stops for v in s]]),
+        yield {"line": toy.proto("train", toy.toy_groups(c, [c["ck"], 0]) + [[v for s in stops for v in s], st["table"]]),
                "impl": (lambda c=c, stops=stops: fmt_history(run_history(c, stops), st, c, stops)),
                "nontrivial": any(s[1] >= 5 for s in stops),
                "bucket": f"train/k{c['k']}/" + "+".join(sorted({["", "vanish", "kill", "crash"][s[0]] for s in stops}))}
